@@ -78,7 +78,17 @@ Annotate(secs) == LET sts == RunStates(Init0, secs, 1) IN
 HasLetter(sec) == sec.k \in {"segment", "horizontal", "vertical", "cubic", "cubic_smooth", "quadratic",
                              "quadratic_smooth", "turn", "arc"}
 CmdHistories == {h \in Secs2 \cup Secs3 : \A i \in DOMAIN h : HasLetter(h[i])}
-Init == \/ \E h \in Histories, t \in Tols : case = [k |-> "curve", tol |-> t, secs |-> Annotate(h)]
+\* closed interpolations: knots x which knots carry an angle constraint x tensions (quarters) x the
+\* knot the second construction starts from
+Knots4 == << <<0, 0>>, <<6, 1>>, <<7, 6>>, <<1, 5>> >>
+Knots5 == << <<0, 0>>, <<5, -1>>, <<8, 3>>, <<4, 7>>, <<-1, 4>> >>
+ItpClosed == {[k |-> "itpclosed", pts |-> K, ang |-> [i \in DOMAIN K |-> A[((i - 1) % 4) + 1]],
+               cons |-> [i \in DOMAIN K |-> i \in C], tens |-> [i \in DOMAIN K |-> T[((i - 1) % 3) + 1]],
+               shift |-> sh, tol |-> 3] :
+                K \in {Knots4, Knots5}, A \in {<<30, 100, 200, -60>>}, C \in {{}, {1}, {2}, {3}, {2, 4}},
+                T \in {<< <<4, 4>>, <<4, 4>>, <<4, 4>> >>, << <<4, 6>>, <<3, 4>>, <<8, 5>> >>}, sh \in {1, 2, 3}}
+Init == \/ case \in ItpClosed
+        \/ \E h \in Histories, t \in Tols : case = [k |-> "curve", tol |-> t, secs |-> Annotate(h)]
         \/ \E h \in CmdHistories, t \in {2} : case = [k |-> "curve", tol |-> t, secs |-> Annotate(h), cmd |-> TRUE]
         \/ \E p \in Prims, t \in Tols : case = [k |-> "prim", tol |-> t] @@ p
         \* fillets also at a coarse tolerance (few segments per corner) in every tier
